@@ -151,7 +151,7 @@ SURVEY_CHANNELS = ["label", "hint", "guidance_hint", "constraint_message", "requ
 ALL_CHANNELS = [*SURVEY_CHANNELS, "group_label", "choice_label", "choice_extra", "form_title", "version"]
 
 
-def gen_probe_form(rng, langs, p_ref=0.35, plain=False, only=None, p_instance=True):
+def gen_probe_form(rng, langs, p_ref=0.35, plain=False, only=None, p_instance=True, only_style=None, media=None):
     """A form whose text-bearing cells are probes.  Returns (form, probes);
     probe = {"id", "chan", "where": {...}, "lang", "parts", "sheet", "row", "col"}."""
     probes = []
@@ -171,11 +171,15 @@ def gen_probe_form(rng, langs, p_ref=0.35, plain=False, only=None, p_instance=Tr
                        "sheet": sheet, "row": row_idx, "col": col})
 
     def lang_cols(sheet, row_idx, row, col, chan, where, refable, allow_inst=False):
-        mixed_style = bool(langs) and rng.random() < 0.12   # unsuffixed + suffixed columns together
-        use = list(langs)
-        if langs and len(langs) > 1 and rng.random() < 0.25:
+        # each cell of a row chooses its own style, independently of the cells it shares an itext id with
+        # (label / hint / guidance_hint / media): plain only, per language, or both
+        style = "plain" if not langs else rng.choice(["lang", "lang", "lang", "both", "plain", "plain"])
+        if only_style is not None and langs:
+            style = only_style.get(chan, style)
+        use = list(langs) if style != "plain" else []
+        if use and len(use) > 1 and rng.random() < 0.25:
             use = [rng.choice(langs)]                       # a language with a missing translation
-        if not langs or mixed_style:
+        if style in ("plain", "both"):
             add_probe(sheet, row_idx, row, col, chan, where, None, refable and rng.random() < p_ref, allow_inst)
         for lg in use:
             add_probe(sheet, row_idx, row, f"{col}::{lg}", chan, where, lg, refable and rng.random() < p_ref, allow_inst)
@@ -210,6 +214,13 @@ def gen_probe_form(rng, langs, p_ref=0.35, plain=False, only=None, p_instance=Tr
                 row[ch] = cell_text(probes[-1]["parts"])
             else:
                 add_probe("survey", ri, row, ch, ch, where, None, ch in XPATH_ATTR_CHANNELS and rng.random() < p_ref)
+        m = media if media is not None else (rng.random() < 0.15)
+        if m and row["type"] in ("text", "note", "integer"):
+            # a media cell shares the label's itext id and forces the label into itext: plain or per language
+            if langs and (m == "lang" or (m is True and rng.random() < 0.5)):
+                row[f"image::{rng.choice(langs) if m is True else langs[0]}"] = "a.png"
+            else:
+                row["image"] = "a.png"
         if "constraint_message" in chans and rng.random() < 0.7:
             row["constraint"] = ". != ''"
         if "required_message" in chans and rng.random() < 0.7:
